@@ -77,7 +77,7 @@ func runC15(r *Run) {
 			}
 			// embedded in a stored bid
 			bid := &order.Bid{SidecarTicket: t, SelfChanBalance: 5, UnannouncedChannel: t.Offer.UnannouncedChannel}
-			got, stored, err := clientdb.VerifBidTlvRoundTrip(bid)
+			got, stored, err := clientdb.VerifC15BidTlvRoundTrip(bid)
 			switch {
 			case err != nil:
 				r.Count("oracle/violation")
